@@ -567,3 +567,79 @@ def c02_model_counts(tier, rng):
                 "obligation": "C02.model_counts", "inputs": {"seed": base + k}, "observed": p[:3],
                 "required": "model counts = documented weights over the listed reads", "replay_call": "contracts.c_counters:replay_model_counts"}]}
     return {"cases": n, "bound": "%d random histories" % n, "violations": [], "samples": [{"seed": base}]}
+
+
+# ---- per-chromosome count files merged into the final table: feature rows concatenated, statistics SUMMED ----------------------------------
+def _merge_case(seed):
+    import os, random, shutil, tempfile
+    lrc = native.repo_import("src/long_read_counter.py")
+    fu = native.repo_import("src/file_utils.py")
+    rng = random.Random(seed)
+    base = os.path.join(os.path.dirname(os.path.dirname(os.path.abspath(__file__))), ".run")
+    os.makedirs(base, exist_ok=True)
+    d = tempfile.mkdtemp(prefix="mrg", dir=base)
+    problems = []
+    try:
+        chrs = rng.sample(["chr1", "chr2", "chr10", "chrX", "scaffold_3"], rng.randint(2, 4))
+        want_rows, want = {}, {"__ambiguous": 0, "__no_feature": 0, "__not_aligned": 0, "usable": 0}
+        for c in chrs:
+            cnt = lrc.create_transcript_counter(os.path.join(d, "S_%s.transcript" % c), "with_ambiguous", [], None, True)
+            feats = ["%s.t%d" % (c, i) for i in range(rng.randint(1, 3))]
+            for i in range(rng.randint(0, 6)):
+                fs = rng.sample(feats, rng.randint(1, len(feats)))
+                cnt.add_read_info_raw("r%d" % i, fs)
+                for f in fs:
+                    want_rows[f] = want_rows.get(f, 0.0) + 1.0 / len(fs)
+            cnt.add_unassigned(rng.randint(0, 4))
+            cnt.add_unaligned(rng.randint(0, 3))
+            cnt.add_confirmed_features(feats)
+            want["__ambiguous"] += cnt.ambiguous_reads; want["__no_feature"] += cnt.not_assigned_reads
+            want["__not_aligned"] += cnt.not_aligned_reads; want["usable"] += cnt.reads_for_tpm
+            cnt.dump()
+        final = lrc.create_transcript_counter(os.path.join(d, "S.transcript"), "with_ambiguous", [], None, True)
+        unaligned = rng.choice([0, 0, 7])
+        order = list(chrs)
+        rng.shuffle(order)
+        fu.merge_counts(final, "S", order, unaligned)
+        rows, stats = {}, {}
+        for line in open(final.output_counts_file_name):
+            if line.startswith("#"):
+                continue
+            f = line.rstrip("\n").split("\t")
+            (stats if f[0].startswith("__") else rows)[f[0]] = float(f[1])
+        if unaligned > 0:
+            want["__not_aligned"] = unaligned
+        for k in ("__ambiguous", "__no_feature", "__not_aligned"):
+            if stats.get(k) != want[k]:
+                problems.append("%s is %r in the merged table, the per-chromosome files sum to %r (%s)" % (k, stats.get(k), want[k], order))
+        if final.reads_for_tpm != want["usable"]:
+            problems.append("usable reads after the merge: %r, sum over chromosomes %r" % (final.reads_for_tpm, want["usable"]))
+        for f in set(rows) | set(k for k, v in want_rows.items() if v > 0):
+            if abs(rows.get(f, 0.0) - round(want_rows.get(f, 0.0), 2)) > 0.011:
+                problems.append("feature %s: merged %r, expected %r" % (f, rows.get(f), want_rows.get(f)))
+    finally:
+        shutil.rmtree(d, ignore_errors=True)
+    return problems
+
+
+def replay_merge(d):
+    p = _merge_case(d["inputs"]["seed"])
+    return (not p), "seed %s: %s" % (d["inputs"]["seed"], p or "merged table = concatenation + summed statistics")
+
+
+@bounded("C02.merge_counts", ["C02"], shards=4, note="real per-chromosome transcript counters (2-4 chromosomes, random reads) dumped and merged by the real "
+         "merge_counts in a shuffled chromosome order: feature rows are kept, __ambiguous / __no_feature / __not_aligned and the usable-read "
+         "total are the sums over the chromosomes (or the BAM's unaligned count when given)")
+def c02_merge(tier, rng):
+    n = 80 if tier == "quick" else 3000
+    base = rng.randrange(10 ** 9)
+    for k in range(n):
+        try:
+            p = _merge_case(base + k)
+        except Exception as e:
+            p = ["exception %s: %s" % (type(e).__name__, e)]
+        if p:
+            return {"cases": k + 1, "bound": "%d merges" % n, "violations": [{
+                "obligation": "C02.merge_counts", "inputs": {"seed": base + k}, "observed": p[:3],
+                "required": "statistics lines are sums over the per-chromosome files", "replay_call": "contracts.c_counters:replay_merge"}]}
+    return {"cases": n, "bound": "%d random merges" % n, "violations": [], "samples": [{"seed": base}]}
